@@ -8,6 +8,9 @@ import json, subprocess, sys, os
 HERE = os.path.dirname(os.path.dirname(os.path.abspath(__file__)))
 
 CLAIMS = {
+ "C01": dict(cat="other", tech="static analysis: the structural necessary conditions of the step-by-step selection semantics, clause by clause (forwarding and linking rules, order / worklist shape, zone abstract interpretation of subscripts against Python's table, truth-table and selection check of the filter, function-node call shape), on go/ssa + points-to + the decompiled grammar",
+   text="Necessary conditions only, one group per clause of the statement: names reach the lookup unchanged and null members are members; every step hands the next one the same root, the same sink and exactly the selected child, and every step (member nodes of multi-name selectors included) is linked behind the previous one; wildcard / multi-name / union loops are complete and in written resp. sorted-key order over stable lists; recursive descent is pre-order and skips no container; index and slice subscripts produce exactly Python's indices; the filter hands on exactly the members whose verdict is true, verdict lists have length 1 or the member count, AND / OR / NOT are computed member by member over operands that see the same members; function nodes are called once with the selected value(s); success means at least one value was emitted.",
+   note="Does NOT decide the property itself — the equality of the returned sequence with the step-by-step definition for all paths x documents needs an executable reference and comparison of values, which is another technique family. Claimed at level 'other' because each condition is genuinely necessary (breaking it breaks C01; all four C01-targeted seeded changes are reported under C01) and none is a proxy that fires on behaviour-preserving edits (21 neutral controls silent).", ref="§0b, §4 C01"),
  "C02": dict(cat="other", tech="static analysis: panic-value typing + recover shape (go/ssa), abstract interpretation of the PEG grammar over the action value stack (stack typing), size-change termination on the call graph, PEG well-formedness",
    text="Structural: every panic raised by parser code carries one of the four documented error types and is converted by an unconditional deferred recover registered right after the lock; no grammar derivation can make an action mis-pop or mis-assert the untyped value stack; the grammar is well-formed (no left recursion, no nullable repetition) and its start rule is total; hand-written recursion descends on the tree; conversion errors are never dropped. Holds for every input string because the abstract stack covers every derivation of the grammar, which translation validation ties to the generated code.",
    note="Decides the crash/typing/termination clauses, not 'bounded time' quantitatively nor panics inside the generated matcher's buffer indexing (relies on the end-symbol sentinel, compared as boilerplate), out-of-memory or stack depth for pathological nesting. Trusted: go/ssa, the PEG reader and the abstract stack interpreter in /verif/checker.", ref="§3.D, §3.E, §4 C02"),
@@ -68,7 +71,6 @@ CLAIMS = {
 }
 
 NA = {
- "C01": "not applicable to static analysis: the statement is an equality between the library's output and a step-by-step definition for all paths x documents; it needs an executable specification and value comparison (another technique family). Its structural sub-mechanisms are decided under C07, C08, C14 and C02 (DESIGN.md §4 C01, §6).",
 }
 
 def main():
